@@ -1238,3 +1238,27 @@ Definition accept_sub (asserts : bool) (parent : ctag) (d : dval) : res unit :=
 (* kind 'subclass' *)
 Definition run_sub (asserts : bool) (parent : ctag) (d : dval) : val :=
   vstatus (accept_sub asserts parent d).
+
+(* ------------------------------------------------------------------ *)
+(* NumContentItem.__init__, int values: `len(str(value)) <= 16` decides
+   whether the exact decimal string is stored as NumericValue (otherwise the
+   value goes through pydicom's 16-character float formatting, which is not
+   modelled).  .value = float(NumericValue): the int comes back unchanged iff
+   it is also exactly representable as a double.                          *)
+Fixpoint ndigits (fuel : nat) (a : Z) : Z :=
+  match fuel with
+  | O => 1
+  | S f => if a <? 10 then 1 else 1 + ndigits f (a / 10)
+  end.
+(* len(str(z)) *)
+Definition int_strlen (z : Z) : Z :=
+  (if z <? 0 then 1 else 0) + ndigits (S (Z.to_nat (Z.log2 (Z.abs z)))) (Z.abs z).
+Definition num_int_exact (z : Z) : bool := int_strlen z <=? 16.
+(* float(z) == z *)
+Definition dbl_exact (z : Z) : bool :=
+  let a := Z.abs z in
+  (a <? 2 ^ 53) || (a mod 2 ^ (Z.log2 a - 52) =? 0).
+
+(* kind 'num_int' *)
+Definition run_num_int (z : Z) : val :=
+  if num_int_exact z then VL [VB true; VB (dbl_exact z)] else VL [VB false; VNone].
